@@ -608,6 +608,11 @@ class FromKafkaBatched(Source):
             from custreamz import kafka
 
         if self.stopped:
+            if getattr(self, '_polling', False):
+                # the polling loop of the previous start() is still suspended
+                # (sleeping); it carries on, so do not start a second one
+                self.stopped = False
+                return
             if self.engine == "cudf":  # pragma: no cover
                 self.consumer = kafka.Consumer(self.consumer_params)
             else:
@@ -620,7 +625,15 @@ class FromKafkaBatched(Source):
             # connection with broker to fetch oauth token for kafka
             self.consumer.poll(timeout=1)
             self.consumer.get_watermark_offsets(tp)
-            self.loop.add_callback(self.poll_kafka)
+            self._polling = True
+            self.loop.add_callback(self._poll_guarded)
+
+    @gen.coroutine
+    def _poll_guarded(self):
+        try:
+            yield self.poll_kafka()
+        finally:
+            self._polling = False
 
 
 @Stream.register_api(staticmethod)
